@@ -44,15 +44,15 @@ func load(s *state.Store) *tables {
 				t.checks[strings.ToLower(x.Node)+"|"+string(x.CheckID)] = x
 			}
 		case *structs.Session:
-			t.sessions[x.ID] = x
+			t.sessions[strings.ToLower(x.ID)] = x
 		case *structs.DirEntry:
 			t.kvs[x.Key] = x
 		case *state.Tombstone:
 			t.tombstones[x.Key] = true
 		case *state.VerifSessionCheck:
 			t.links = append(t.links, x)
-		case *structs.PreparedQuery:
-			t.queries = append(t.queries, x)
+		case *state.VerifQueryWrapper:
+			t.queries = append(t.queries, x.PreparedQuery)
 		}
 		return true
 	})
@@ -66,13 +66,13 @@ func invariants(t *tables) []finding {
 	add := func(key, f string, a ...any) { out = append(out, finding{key, fmt.Sprintf(f, a...)}) }
 	for _, e := range t.kvs {
 		if e.Session != "" {
-			if _, ok := t.sessions[e.Session]; !ok {
+			if _, ok := t.sessions[strings.ToLower(e.Session)]; !ok {
 				add("C04:invariant:key-held-by-dead-session", "key %q is locked by session %s which does not exist", e.Key, e.Session)
 			}
 		}
 	}
 	for _, l := range t.links {
-		if _, ok := t.sessions[l.Session]; !ok {
+		if _, ok := t.sessions[strings.ToLower(l.Session)]; !ok {
 			add("C04:invariant:check-link-of-dead-session", "session_checks row (%s,%s) refers to session %s which does not exist", l.Node, l.CheckID.ID, l.Session)
 		}
 		if _, ok := t.checks[strings.ToLower(l.Node)+"|"+string(l.CheckID.ID)]; !ok {
@@ -81,7 +81,7 @@ func invariants(t *tables) []finding {
 	}
 	for _, q := range t.queries {
 		if q.Session != "" {
-			if _, ok := t.sessions[q.Session]; !ok {
+			if _, ok := t.sessions[strings.ToLower(q.Session)]; !ok {
 				add("C04:invariant:query-of-dead-session", "prepared query %s is bound to session %s which does not exist", q.ID, q.Session)
 			}
 		}
@@ -115,14 +115,14 @@ func transition(b, a *tables, idx uint64, multi bool) ([]finding, map[string]boo
 		}
 		ended[id] = true
 		for _, e := range b.kvs {
-			if e.Session != id {
+			if sid(e.Session) != id {
 				continue
 			}
 			n, exists := a.kvs[e.Key]
 			switch s.Behavior {
 			case structs.SessionKeysDelete:
 				// the key must be gone (it may have been re-created unlocked by a later op of the same txn)
-				if exists && n.Session == id {
+				if exists && sid(n.Session) == id {
 					add("C04:transition:delete-behaviour:key-still-held", "session %s (behaviour delete) ended at index %d but key %q is still held by it", id, idx, e.Key)
 				} else if exists && n.CreateIndex == e.CreateIndex && !multi {
 					add("C04:transition:delete-behaviour:key-not-deleted", "session %s (behaviour delete) ended at index %d but key %q was not deleted", id, idx, e.Key)
@@ -131,7 +131,7 @@ func transition(b, a *tables, idx uint64, multi bool) ([]finding, map[string]boo
 				if !exists {
 					continue // deleted by the same command (delete / delete-tree in a txn): nothing left to hold
 				}
-				if n.Session == id {
+				if sid(n.Session) == id {
 					add("C04:transition:release-behaviour:key-still-held", "session %s (behaviour release) ended at index %d but key %q is still held by it", id, idx, e.Key)
 				} else if n.Session == "" && n.CreateIndex == e.CreateIndex && !multi {
 					if n.LockIndex != e.LockIndex {
@@ -159,6 +159,8 @@ func TestZZVerifC04(t *testing.T) {
 		g := gen.New(hr, gen.SessionWeights())
 		g.Focus = true
 		g.EmptyStatus = true
+		g.UpperSessionIDs = true
+		g.SharedQuerySessions = true
 		g.NodeNames = []string{"n1", "n2", "n1x", "Web-01"} // one mixed-case name: session/node indexes fold case
 		r := fsmkit.New(fsmkit.Opts{})
 		idx := uint64(4)
@@ -182,11 +184,25 @@ func TestZZVerifC04(t *testing.T) {
 			// before/after states then
 			tf, ended := transition(before, after, idx, c.Class == "txn")
 			fs = append(fs, tf...)
+			for id := range ended {
+				nq := 0
+				for _, q := range before.queries {
+					if sid(q.Session) == id {
+						nq++
+					}
+				}
+				if nq >= 1 {
+					run.Count("session-ended-with-bound-queries")
+				}
+				if nq >= 2 {
+					run.Count("session-ended-with->=2-bound-queries")
+				}
+			}
 			if len(ended) > 0 {
 				held := false
 				for id := range ended {
 					for _, e := range before.kvs {
-						if e.Session == id {
+						if sid(e.Session) == id {
 							held = true
 						}
 					}
@@ -230,6 +246,8 @@ func TestZZVerifC04(t *testing.T) {
 		run.Floor("session-ended-with-held-key-via:"+p, 3)
 	}
 	run.Floor("lock-results-checked", 200)
+	run.Floor("session-ended-with-bound-queries", 40)
+	run.Floor("session-ended-with->=2-bound-queries", 4)
 	if run.Finish() == 1 {
 		t.Fail()
 	}
@@ -241,15 +259,17 @@ func lockResult(c gen.Cmd, res any, b, a *tables) []finding {
 	var out []finding
 	// parse key/session from the description JSON cheaply
 	key := between(c.Desc, `"Key":"`, `"`)
-	sess := between(c.Desc, `"Session":"`, `"`)
+	rawSess := between(c.Desc, `"Session":"`, `"`)
+	sess := sid(rawSess)
 	ok, isBool := res.(bool)
 	if !isBool {
 		return nil
 	}
 	be := b.kvs[key]
-	holder := ""
+	holder, rawHolder := "", ""
 	if be != nil {
-		holder = be.Session
+		holder = sid(be.Session)
+		rawHolder = be.Session
 	}
 	if strings.HasPrefix(c.Class, "kvs:lock") {
 		if ok && !(holder == "" || holder == sess) {
@@ -259,11 +279,11 @@ func lockResult(c gen.Cmd, res any, b, a *tables) []finding {
 			if _, live := b.sessions[sess]; !live {
 				out = append(out, finding{"C04:lock:acquired-by-dead-session", fmt.Sprintf("lock of %q by %s succeeded although that session does not exist", key, sess)})
 			}
-			if ae := a.kvs[key]; ae == nil || ae.Session != sess {
+			if ae := a.kvs[key]; ae == nil || sid(ae.Session) != sess {
 				out = append(out, finding{"C04:lock:reported-but-not-held", fmt.Sprintf("lock of %q by %s reported success but the key is not held by it", key, sess)})
 			}
 		}
-		if !ok && (holder == "" || holder == sess) {
+		if !ok && (holder == "" || rawHolder == rawSess) {
 			out = append(out, finding{"C04:lock:refused-although-free", fmt.Sprintf("lock of %q by live session %s was refused although holder was %q", key, sess, holder)})
 		}
 	} else {
@@ -275,12 +295,14 @@ func lockResult(c gen.Cmd, res any, b, a *tables) []finding {
 				out = append(out, finding{"C04:unlock:reported-but-still-held", fmt.Sprintf("unlock of %q by %s reported success but the key is still held", key, sess)})
 			}
 		}
-		if !ok && be != nil && holder == sess && sess != "" {
+		if !ok && be != nil && rawHolder == rawSess && sess != "" {
 			out = append(out, finding{"C04:unlock:refused-to-holder", fmt.Sprintf("unlock of %q by its holder %s was refused", key, sess)})
 		}
 	}
 	return out
 }
+
+func sid(x string) string { return strings.ToLower(x) }
 
 func between(s, a, b string) string {
 	i := strings.Index(s, a)
